@@ -36,14 +36,14 @@ C01Verdict ==
         Off(h) == HasFixedBudget(t) /\ hb[h][2] # ChildBudget(t, hb[h][1])
         d == First(Len(hb), Off)
         drift == IF d = 0 THEN "" ELSE " d=" \o S(hb[d][1])
-    IN IF ~InScope(t) THEN "oos m=" \o S(m) \o drift
+    IN IF ~InScopeEnv(t) THEN "oos m=" \o S(m) \o drift
        ELSE IF i = 0 THEN "ok m=" \o S(m) \o " j=" \o S(judged) \o drift
        ELSE "overflow W=" \o S(R.rs[i][1]) \o " w=" \o S(Widest(R.rs[i][2])) \o " m=" \o S(m)
 
 C09Verdict ==
     LET t == R.tree
         m == MinW(t)
-        in == InScope(t)
+        in == InScopeEnv(t)
         isTxt == t.k = "txt"
         n == Len(R.ms)
         e(i) == R.ms[i]
@@ -52,7 +52,7 @@ C09Verdict ==
         bMin(i) == in /\ e(i)[2] >= m /\ ~Fits(e(i)[2], e(i)[6])
         bTMax(i) == isTxt /\ ~TextMaxOK(t.cs, e(i)[1], e(i)[3])
         bTMin(i) == isTxt /\ ~TextMinOK(t.cs, e(i)[1], e(i)[2])
-        bWrap(i) == isTxt /\ ~TextNotWrapped(t.cs, e(i)[1], e(i)[3], e(i)[5])
+        bWrap(i) == isTxt /\ DefaultEnd(t) /\ ~TextNotWrapped(t.cs, e(i)[1], e(i)[3], e(i)[5])
         i1 == First(n, bBounds)
         i2 == First(n, bMax)
         i3 == First(n, bMin)
